@@ -371,6 +371,10 @@ fn sched_units(quick: bool) -> Vec<(Vec<Vec<String>>, Option<usize>, Option<usiz
         (f(&[&["a b", "b a-b", "a a"]]), Some(10), None, false, 1, 2, 99),
         (f(&[&["ab", "b"], &["ab a"]]), Some(1), Some(2), false, 1, 2, 99),
         (f(&[&["ab", "ba", "ab"]]), None, None, true, 3, 3, if quick { 2 } else { 99 }),
+        // more lines than the channel holds, every line with the same word: a worker meets a full
+        // channel (when the reducer is scheduled late) and then counts the same word again
+        (f(&[&["a", "a", "a", "a"]]), Some(10), None, false, 1, 1, 99),
+        (f(&[&["a b", "a", "b a", "a", "a"]]), Some(10), None, false, 1, 2, 99),
     ];
     if !quick {
         u.push((f(&[&["a", "a"], &["a", "b"]]), Some(2), None, true, 1, 2, 99));
@@ -381,14 +385,14 @@ fn sched_units(quick: bool) -> Vec<(Vec<Vec<String>>, Option<usize>, Option<usiz
 }
 
 #[allow(clippy::too_many_arguments)]
-fn check_sched(run: &mut Run, ctx: &mut Ctx, files: &[Vec<String>], max_size: Option<usize>, max_sequences: Option<usize>, use_characters: bool, char_grams: u8, workers: usize, bound: usize, replay: Option<Vec<usize>>) {
+fn check_sched(run: &mut Run, ctx: &mut Ctx, files: &[Vec<String>], max_size: Option<usize>, max_sequences: Option<usize>, use_characters: bool, char_grams: u8, workers: usize, bound: usize, controlled_reducer: bool, replay: Option<Vec<usize>>) {
     use text_utils::verif::ThreadKind;
     let paths: Vec<std::path::PathBuf> = (0..files.len()).map(|i| ctx.scratch.path(&format!("s{i}.txt"))).collect();
     for (p, f) in paths.iter().zip(files) {
         std::fs::write(p, f.iter().map(|l| format!("{l}\n")).collect::<String>()).expect("cannot write file");
     }
     let reference = reference_counts(files, max_sequences, use_characters, char_grams);
-    let unit_json = json!({"sched": true, "files": files, "max_size": opt_json(max_size), "max_sequences": opt_json(max_sequences), "use_characters": use_characters, "char_grams": char_grams, "workers": workers, "bound": bound});
+    let unit_json = json!({"sched": true, "files": files, "max_size": opt_json(max_size), "max_sequences": opt_json(max_sequences), "use_characters": use_characters, "char_grams": char_grams, "workers": workers, "bound": bound, "controlled_reducer": controlled_reducer});
     let runp: *mut Run = run;
     let make_body = || {
         let paths = paths.clone();
@@ -454,7 +458,7 @@ fn check_sched(run: &mut Run, ctx: &mut Ctx, files: &[Vec<String>], max_size: Op
         run.num_violations() < 4
     };
     if let Some(choices) = replay {
-        let x = tu_verif::countsched::exec(ThreadKind::DictCounter, workers, &choices, make_body());
+        let x = tu_verif::countsched::exec_mode(ThreadKind::DictCounter, workers, controlled_reducer, &choices, make_body());
         tu_verif::guard::quiet_panics();
         if x.choices() != choices {
             run.violation("machinery-replay-divergence", "machinery", unit_json.clone(), format!("replayed {:?}", x.choices()));
@@ -462,7 +466,11 @@ fn check_sched(run: &mut Run, ctx: &mut Ctx, files: &[Vec<String>], max_size: Op
         check(&x, &choices);
         return;
     }
-    let stats = tu_verif::countsched::explore(ThreadKind::DictCounter, workers, bound, run.deadline(), make_body, &mut check);
+    let stats = if controlled_reducer {
+        tu_verif::countsched::explore_controlled(ThreadKind::DictCounter, workers, bound, run.deadline(), make_body, &mut check)
+    } else {
+        tu_verif::countsched::explore(ThreadKind::DictCounter, workers, bound, run.deadline(), make_body, &mut check)
+    };
     tu_verif::guard::quiet_panics();
     if results.len() > 1 && !tie {
         run.violation("same-result-for-every-schedule", "", unit_json.clone(), format!("different schedules of the counting workers gave different dictionaries: {results:?}"));
@@ -485,7 +493,7 @@ fn main() {
             let opt = |x: &Value| x.as_u64().map(|n| n as usize);
             let files: Vec<Vec<String>> = c["files"].as_array().unwrap().iter().map(|f| f.as_array().unwrap().iter().map(|l| l.as_str().unwrap().to_string()).collect()).collect();
             let choices = c["choices"].as_array().map(|a| a.iter().map(|v| v.as_u64().unwrap() as usize).collect()).unwrap_or_default();
-            check_sched(&mut run, &mut ctx, &files, opt(&c["max_size"]), opt(&c["max_sequences"]), c["use_characters"].as_bool().unwrap(), c["char_grams"].as_u64().unwrap() as u8, c["workers"].as_u64().unwrap() as usize, c["bound"].as_u64().unwrap() as usize, Some(choices));
+            check_sched(&mut run, &mut ctx, &files, opt(&c["max_size"]), opt(&c["max_sequences"]), c["use_characters"].as_bool().unwrap(), c["char_grams"].as_u64().unwrap() as u8, c["workers"].as_u64().unwrap() as usize, c["bound"].as_u64().unwrap() as usize, c["controlled_reducer"].as_bool().unwrap_or(false), Some(choices));
             drop(ctx);
             run.finish();
         }
@@ -584,11 +592,15 @@ fn main() {
     run.bounds.insert("scheduler_units".into(), json!(sus.iter().map(|u| json!({"files": u.0, "max_size": opt_json(u.1), "max_sequences": opt_json(u.2), "use_characters": u.3, "char_grams": u.4, "workers": u.5, "preemption_bound": u.6})).collect::<Vec<_>>()));
     run.assumptions.push("scheduler part: only the counting workers are controlled, the reducer (calling thread) runs freely and always receives, so the order of messages it sees is the controlled order of sends; sequentially consistent exploration of the instrumented primitives".into());
     // Engine B first: every schedule of the counting workers up to the preemption bound
+    let cb = if run.quick() { 2 } else { 3 };
     for (j, u) in sus.iter().enumerate() {
         if !run.unit((units + j) as u64) {
             continue;
         }
-        check_sched(&mut run, &mut ctx, &u.0, u.1, u.2, u.3, u.4, u.5, u.6, None);
+        check_sched(&mut run, &mut ctx, &u.0, u.1, u.2, u.3, u.4, u.5, u.6, false, None);
+        // the same scenario with the reducer (the calling thread) controlled as well: its spawns and
+        // receives are scheduling points and the count channel is the real bounded channel
+        check_sched(&mut run, &mut ctx, &u.0, u.1, u.2, u.3, u.4, u.5, u.6.min(if u.5 >= 3 { cb - 1 } else { cb }), true, None);
     }
     for unit in 0..units {
         if !run.unit(unit as u64) {
